@@ -511,6 +511,48 @@ def handleSess (input impl : String) : String × String :=
 
 end Sess
 
+/-! ### `nm=` / `pt=`: a creation for another name / another plugin type than the one registration (Iface, "x") -/
+
+def handleMiss (inp : Input) (kv : List (String × String)) (impl : String) : String × String :=
+  let hook := getS kv "via" == "hook"
+  let nm := getS kv "nm" "x"
+  let pt := (getN? kv "pt").getD 0
+  let reg : Pandora.Model.C18Sess.Reg :=
+    { ptype := 0, name := "x", sh := inp.sh, dflt := inp.w.dflt, fillFault := inp.w.fillFault,
+      ctorFault := inp.w.ctorFault, factFault := inp.w.factFault }
+  let creation : Pandora.Model.C18Sess.Op :=
+    match inp.form with
+    | .component => .new pt nm inp.w.user inp.w.hasFill
+    | .facNoErr => .newFactory pt nm false inp.w.user inp.w.hasFill
+    | .facErr => .newFactory pt nm true inp.w.user inp.w.hasFill
+  let n := if inp.form == .component then inp.k else 1
+  let ops := Pandora.Model.C18Sess.Op.register reg :: (List.replicate n [Pandora.Model.C18Sess.Op.lookup pt, creation]).flatten
+  let outs := (Pandora.Model.C18Sess.run ops).outs.drop 1
+  -- pairs (Lookup, creation)
+  let rec pairs : List Pandora.Model.C18Sess.Out → Option (List String)
+    | .found b :: o :: rest => do
+      let r ← pairs rest
+      if hook && !b then pure (">pass" :: r)
+      else match o with
+        | .noEntry _ => pure (">noentry" :: r)
+        | _ => none
+    | [] => some []
+    | _ => none
+  if !registerOk inp.sh then ("-", "fail:driver:nm=/pt= with a registration Register refuses") else
+  match pairs outs with
+  | none => ("-", "fail:driver:nm=/pt= that name the registration itself")
+  | some exp =>
+    let m := s!"steps={";".intercalate exp} views="
+    let toks := splitList (getS (parseKV impl) "steps") ";"
+    -- the Spec: nothing runs; the error result of the lookup — through the hooks the untouched data is also right when NO
+    -- plugin is registered for the type at all
+    let typeKnown := pt == 0
+    if toks.length != exp.length then (m, "fail:lookup:number of results")
+    else if toks.all (fun t => t == ">noentry" || (hook && !typeKnown && t == ">pass")) then (m, "ok")
+    else if toks.any (fun t => !t.startsWith ">") then
+      (m, "fail:lookup:user code ran although nothing is registered for this type and name")
+    else (m, "fail:lookup:a creation for a type and name nobody registered did not end with the lookup error")
+
 def handle : Handler := fun input impl =>
   if getS (parseKV input) "sess" == "1" then Sess.handleSess input impl else
   if getS (parseKV input) "hist" == "1" then handleHist input impl else
@@ -520,6 +562,7 @@ def handle : Handler := fun input impl =>
   | none => ("-", "fail:driver:unparsable input")
   | some inp =>
     let hook := getS (parseKV input) "via" == "hook"
+    if (lookup (parseKV input) "nm").isSome || (lookup (parseKV input) "pt").isSome then handleMiss inp (parseKV input) impl else
     if hook && !inp.w.hasFill then ("-", "fail:driver:via=hook needs fill=1") else
     let m := showObs inp.sh (if hook then (run inp).map eraseFills else run inp)
     -- an operation that hands out neither a component nor an error (a nil component with a nil error, printed
